@@ -64,7 +64,7 @@ type pairInfo struct {
 }
 
 func parent(r *vf.Run) {
-	r.Rule("8 concurrent workloads built from the goroutines bio-rd itself runs (FSM goroutines feeding Adj-RIB-Ins, Loc-RIB writers, RIS observers registering/unregistering, configuration reload replacing import/export policies, sessions coming up and going down with started update senders, LocRIB.Dispose with late registration, API/metrics readers using Dump/Get/LPM/GetLonger/RouteCount/ToProto; live servers with established sessions read through Metrics and GetRIBIn/GetRIBOut().Dump()) run under the race detector, each workload x repetitions with different seeds. distinct_nontrivial = (workload, repetition, round) triples that completed with at least two operations in flight at the same time")
+	r.Rule("9 concurrent workloads built from the goroutines bio-rd itself runs (FSM goroutines feeding Adj-RIB-Ins, Loc-RIB writers, RIS observers registering/unregistering, configuration reload replacing import/export policies, sessions coming up and going down with started update senders, LocRIB.Dispose with late registration, API/metrics readers using Dump/Get/LPM/GetLonger/RouteCount/ToProto; several connections of one peer arriving together (collision detection next to the incoming connection worker); live servers with established sessions read through Metrics and GetRIBIn/GetRIBOut().Dump()) run under the race detector, each workload x repetitions with different seeds. distinct_nontrivial = (workload, repetition, round) triples that completed with at least two operations in flight at the same time")
 	r.Assume("a race report is attributed to bio-rd when at least one of its two stacks enters bio-rd code; a stack that never does belongs to a client callback / API consumer doing what bio-rd's own clients do (ToProto on what it was handed)",
 		"known C25 deadlocks can wedge a round: the child abandons it (counted), reports collected so far stay valid",
 		"static routes are not offered to route-reflector-client sessions with a started update sender (the sender goroutine crashes in the CLUSTER_LIST serializer, a C09 finding, and would take the child down)")
